@@ -101,8 +101,11 @@ Fixpoint sub_loop (rec : id -> res cres) (w : world) (oldty newty : N * N) (f ta
        let* r2 := find_sub_element T newty (n_name cn) U32MAX in
        match (match r1 with Some x => Some x | None => r2 end) with
        | Some (_, indices) =>
-         (* self.element_type().get_sub_element_version_mask(&indices).unwrap() — the OLD type with the NEW type's indices *)
-         let* o := get_sub_element_version_mask T oldty indices in
+         (* elemtype_new.get_sub_element_version_mask(&indices).unwrap() — the type the indices were computed for (fix: the mask
+            used to be read from the element's STORED type, `oldty`, with these indices: class K_mixup, an index-out-of-bounds
+            panic on the real tables after a move / copy below a parent listing the name with another type); `oldty` is kept
+            as a parameter, it is no longer consulted here *)
+         let* o := get_sub_element_version_mask T newty indices in
          let* vm := unwrap "check_version_compatibility: get_sub_element_version_mask(..).unwrap()" o in
          if negb (compatible target vm)
          then
